@@ -41,11 +41,22 @@ package hc
 //@ func (t *ipTransport) isPaired() (p)
 //@   requires t != nil && t.database != nil
 //@   pure
-//@   ensures p ==> dbcount(t.database) > 1
+//@   ensures p == (dbok(t.database) && dbcount(t.database) > 1)
 
+// discoverable exactly when no controller pairing is stored, recomputed from the store on every pairing event
 //@ func (t *ipTransport) updateMDNSReachability()
 //@   requires t != nil && t.database != nil && t.config != nil
-//@   modifies heap
+//@   modifies t.config.discoverable
+//@   ensures t.config.discoverable == !(dbok(t.database) && dbcount(t.database) > 1)
+
+//@ func (t *ipTransport) Handle(ev)
+//@   requires t != nil && t.database != nil && t.config != nil
+//@   modifies t.config.discoverable
+//@   ensures typeis(ev, "github.com/brutella/hc/event.DevicePaired") || typeis(ev, "github.com/brutella/hc/event.DeviceUnpaired") ==> t.config.discoverable == !(dbok(t.database) && dbcount(t.database) > 1)
+
+//@ func (cfg Config) txtRecords() (m)
+//@   trusted
+//@   pure
 
 // ---- C20: identity persists: what save wrote is what load reads back (per key; the store is the ghost map stval)
 //@ func (cfg *Config) load(storage)
